@@ -362,6 +362,25 @@ def root_of(P, f):
     return f
 
 
+def site_root(P, f):
+    """Function whose supergraph a call site in f is analysed in: a closure's parent; a plain fn nested in another fn's body
+    climbs to that fn (it is expanded there); methods of impls - also of types declared inside a body - are their own root."""
+    if f.kind == "closure":
+        f = P.fns[f.root]
+    while not f.impl_of:
+        cur = f.id
+        g = None
+        while "::" in cur:
+            cur = cur.rsplit("::", 1)[0]
+            g = P.fns.get(cur)
+            if g is not None:
+                break
+        if g is None or g is f:
+            break
+        f = P.fns[g.root] if g.kind == "closure" else g
+    return f
+
+
 def _is_anchor_fn(P, f):
     np = f.npath
     if np in STRUCT or np in GETTERS or np in MUTATORS:
